@@ -40,6 +40,17 @@ Proof.
   specialize (H Hin). rewrite Hm in H. cbn [negb orb] in H. apply Z.eqb_eq in H. exact H.
 Qed.
 
+Lemma lines_mark_okb s t P del :
+  WF2 s -> 0 <= P -> 0 <= del -> P + del <= slen s ->
+  compat_lines s t P del -> mark_okb t P del (flatten s) = true.
+Proof.
+  intros W HP Hd Hlen H. unfold mark_okb. rewrite (flatten_tab s W).
+  rewrite firstn_skipn_tab by auto. apply forallb_forall. intros v Hin.
+  apply in_map_iff in Hin. destruct Hin as (i & <- & Hi). apply zseq_In_iff in Hi.
+  specialize (H i ltac:(lia)). unfold compat in H.
+  destruct (is_mark (sval s i)); cbn [negb orb]; auto. apply Z.eqb_eq. auto.
+Qed.
+
 Lemma in_rangeb_range s t P ins del :
   WF2 s -> in_rangeb t P ins del (flatten s) = true -> in_range s t P ins del.
 Proof.
@@ -80,6 +91,32 @@ Proof.
     split; [rewrite !len_slen; exact Hl|]. split.
     + intros Hmark. apply (update_hist t P ins del s s' _ HWF0 Hrange ltac:(lia) Hc Hmark E).
     + intros Hmark. apply (update_silent t P ins del s s' _ HWF0 Hrange ltac:(lia) Hc Hmark E).
+Qed.
+
+(* in range, but a deleted line carries the merge mark with another tick: updateTime panics *)
+Theorem update_mark_conflict t P ins del s :
+  WF s -> in_rangeb t P ins del (flatten s) = true -> mark_okb t P del (flatten s) = false ->
+  exists c, update t P ins del s = Panic c.
+Proof.
+  intros HWF0 Hr Hm. pose proof (WF_WF2 _ HWF0) as HWF.
+  assert (Hs32 : slen s <= MaxU32) by (destruct HWF0 as (_ & _ & _ & H0); exact H0).
+  destruct (in_rangeb_range s t P ins del HWF Hr) as (Ht & HP & Hi & Hd & Hlen & H32).
+  assert (Hdel : 0 < del).
+  { destruct (Z.eq_dec del 0) as [->|]; [|lia]. unfold mark_okb in Hm. cbn in Hm. discriminate. }
+  assert (Hrange : in_range s t P ins del) by (unfold in_range; tauto).
+  destruct (update_enter s t P ins del HWF Hs32 Hrange ltac:(lia)) as (L & ok & ov & R & Es & Hok & Hgt & Ef & E).
+  rewrite E. subst s. destruct HWF as (Hinc & Hw).
+  destruct (inc_decomp _ _ _ Hinc) as (HL & HLo & HR). cbn [fst] in *.
+  assert (Hn : ~ compat_list t (P + del) (ok, ov) R).
+  { intros Hc. rewrite (lines_mark_okb _ t P del (conj Hinc Hw) HP Hd Hlen) in Hm; [discriminate|].
+    apply compat_list_lines; auto. }
+  unfold update_body.
+  destruct (ins >? 0); [rewrite update_time_self|];
+    (replace (del =? 0) with false by (symmetry; apply Z.eqb_neq; lia));
+    match goal with |- context [del_loop t P ins del (ok, ov) ?po L (ok, ov) R ?reps] =>
+      destruct (first_loop_conflict t P ins del Hdel ltac:(lia) R ok ov po L reps Hok HR Hgt Hn) as (c & Ec);
+      rewrite Ec; eexists; reflexivity
+    end.
 Qed.
 
 (* ---------- NewFile ---------- *)
